@@ -177,10 +177,14 @@ class IkeSaController:
                     data = xfrm_socket.recv(4096)
                     header, msg, attributes = xfrm.Xfrm.parse_message(data)
                     reply_data, my_addr, peer_addr = None, None, None
-                    if header.type == xfrm.XFRM_MSG_ACQUIRE:
-                        reply_data, my_addr, peer_addr = self.process_acquire(msg, attributes)
-                    elif header.type == xfrm.XFRM_MSG_EXPIRE:
-                        reply_data, my_addr, peer_addr = self.process_expire(msg)
+                    try:
+                        if header.type == xfrm.XFRM_MSG_ACQUIRE:
+                            reply_data, my_addr, peer_addr = self.process_acquire(msg, attributes)
+                        elif header.type == xfrm.XFRM_MSG_EXPIRE:
+                            reply_data, my_addr, peer_addr = self.process_expire(msg)
+                    except ConfigurationNotFound as ex:
+                        # not ours: the control socket and the timers of this pass are served all the same
+                        logging.warning(f'Ignoring kernel event for an unknown connection: {ex}')
                     if reply_data:
                         dst_addr = (str(peer_addr), 500)
                         udp_sockets[my_addr].sendto(reply_data, dst_addr)
